@@ -278,7 +278,10 @@ impl<const N: usize> Live<N> {
             1 => (2 * N as u32).min(32768).max(N as u32),
             _ => 32768,
         };
-        let ts = TState::new(DeviceType::Block, 0, 1, max);
+        let mut ts = TState::new(DeviceType::Block, 0, 1, max);
+        // every other triple of queues sits on a transport that requires the legacy (contiguous) layout: the
+        // ring features a queue was created with hold there just the same
+        ts.legacy = (k / 3) % 2 == 1;
         let (mut t, st) = ModelTransport::new(ts);
         let q = guarded(|| VirtQueue::<LedgerHal, N>::new(&mut t, 0, indirect, event_idx, ap))?.map_err(|e| format!("{:?}", e))?;
         let reg = st.borrow().queues[0];
@@ -1383,7 +1386,7 @@ pub fn run(ctx: &Ctx, prop: &str) -> (Vec<Case>, String, bool, BTreeMap<String, 
         // framebuffer and the cursor) must be DMA addresses as well
         let mut g = crate::c20_cmd::gpu_cases(ctx, "C04", ctx.tier.pick(200, 4000));
         for c in g.iter_mut() {
-            c.oracle_failures.retain(|f| f.contains("is not live DMA memory"));
+            c.oracle_failures.retain(|f| f.contains("is not live DMA memory") || f.contains("while it is attached as backing") || f.contains("no longer allocated after"));
             for f in c.oracle_failures.iter_mut() {
                 *f = format!("[C04] {}", f);
             }
